@@ -13,7 +13,7 @@ ACKS = ("PUBACK", "PUBREC", "PUBCOMP", "SUBACK", "UNSUBACK")
 FLAVOURS = {
     "mixed": dict(pub=10, sub=4, unsub=3, ack=14, dupack=2, stray=2, early=1, cross=2, inpub=5, inrel=4,
                   tick=5, adv=3, setwin=2, settimeout=1, setbw=1, lose=2, disconnect=1, pingresp=1,
-                  reconnect=6, stale=1),
+                  reconnect=6, stale=1, dupconnack=1),
     "pubflow": dict(pub=16, ack=16, dupack=3, stray=2, early=2, cross=2, tick=6, adv=2, setwin=3, lose=1,
                     reconnect=5, settimeout=1, setbw=1),
     "subflow": dict(sub=8, unsub=7, ack=10, dupack=2, stray=2, cross=2, inpub=8, inrel=7, tick=4, adv=2,
@@ -125,6 +125,8 @@ class Walker(object):
             return ("disconnect", a)
         if k == "pingresp":
             return ("pingresp", a)
+        if k == "dupconnack":
+            return ("connack", a, r.choice([0, 0, 2]), r.random() < 0.5)
         if k == "reconnect":
             return None
         if k == "stale":
@@ -132,6 +134,8 @@ class Walker(object):
         return None
 
     def walk(self, w, n):
+        if self.rng.random() < 0.15:
+            w.step(("placeid", self.rng.choice([200, 255, 32766, 65500])))
         for _ in range(n):
             s = self.next_step(w)
             if s is not None:
